@@ -1,9 +1,10 @@
+import os
 subs=[("idle","stepIdle",True),("begin","stepBegin",False),("commit","stepCommit",False),("abort","stepAbort",False),("after","stepAfter",True),("use","stepUse",False),("sess","stepSess",False),("close","stepClose",False),("exp","stepExp",False)]
 pcname={"idle":".idle","after":".after"}
 head='''/-
   Lungo.Proofs.ConcOwn3 — the ownership invariant (Oinv), per sub-machine (generated mechanically).
 -/
-import Lungo.Proofs.ConcOwn2
+import Lungo.Proofs.ConcOwnDefs
 namespace Lungo.Conc
 '''
 def thm(field, name, fn, haspc, hyps, goal, body):
@@ -69,4 +70,4 @@ for name,fn,haspc in subs:
         (try goal_simp); grind)'''
     out+=thm("oinv",name,fn,haspc,"(inv1 : Inv1 s) (lw : Lwf s) (bnd : Bnd s) (sv : Sinv s) (g : Oinv s)","Oinv s'",body)
 out+="\nend Lungo.Conc\n"
-open('/root/wt/a4/lean/Lungo/Proofs/ConcOwn3.lean','w').write(out)
+open(os.path.join(os.path.dirname(os.path.abspath(__file__)),'..','Lungo','Proofs')+'/ConcOwn3.lean','w').write(out)
